@@ -25,22 +25,31 @@ Inductive prim :=
      instantiates); its internal wires do not exist in the kernel design. *)
   | PXor2 (r a b : nid) | PNand2 (r a b : nid) | PNor2 (r a b : nid)
   | PAnd (r : nid) (ins : list nid) | POr (r : nid) (ins : list nid) | PNor (r : nid) (ins : list nid)
-  | PEqual (r a b : nid) | PEqualConst (r a : nid) (v : Z).
+  | PEqual (r a b : nid) | PEqualConst (r a : nid) (v : Z)
+  (* Div / Mod: the simulator's result for a zero divisor is random (`rnd`); the leaf below fixes it to what VSem's totalised
+     quot/rem give, so that text and leaf agree on EVERY environment (also the transient ones of the settle loop); whenever the
+     divisor is non-zero this is the regenerated Div_propagate / Mod_propagate for every rnd (div_rnd_irrelevant) *)
+  | PDiv (r a b : nid) | PMod (r a b : nid)
+  (* the k-th listed wire of a BitsLSBF / BitsMSBF block on a: one assign of the block's text, one output of its (single) leaf;
+     the kernel design merges the projections of a block into ONE multi-output leaf (citem / item_leaf below) *)
+  | PBitOf (msb : bool) (a : nid) (bits : list nid) (k : nat).
 
 Definition prim_out (p : prim) : nid :=
   match p with
   | PAnd2 r _ _ | POr2 r _ _ | PNot r _ | PBuf r _ | PZeroExtend r _ | PSub r _ _ | PMul r _ _ | PAddCI r _ _ _
   | PShl r _ _ | PShr r _ _ | PMux2 r _ _ _ | PRange r _ _ _ | PBit r _ _ | PConstant r _
   | PSignedMul r _ _ | PSignExtend r _ | PConcatMSBF r _ | PConcatLSBF r _ | PRepeat r _
-  | PXor2 r _ _ | PNand2 r _ _ | PNor2 r _ _ | PAnd r _ | POr r _ | PNor r _ | PEqual r _ _ | PEqualConst r _ _ => r
+  | PXor2 r _ _ | PNand2 r _ _ | PNor2 r _ _ | PAnd r _ | POr r _ | PNor r _ | PEqual r _ _ | PEqualConst r _ _
+  | PDiv r _ _ | PMod r _ _ => r
+  | PBitOf _ _ bits k => nth k bits (O, 0)
   end.
 
 (* the nets the instance reads, in the order of the leaf's argument list *)
 Definition prim_ins (p : prim) : list nid :=
   match p with
   | PAnd2 _ a b | POr2 _ a b | PSub _ a b | PMul _ a b | PSignedMul _ a b
-  | PXor2 _ a b | PNand2 _ a b | PNor2 _ a b | PEqual _ a b => [a; b]
-  | PEqualConst _ a _ => [a]
+  | PXor2 _ a b | PNand2 _ a b | PNor2 _ a b | PEqual _ a b | PDiv _ a b | PMod _ a b => [a; b]
+  | PEqualConst _ a _ | PBitOf _ a _ _ => [a]
   | PAnd _ ins | POr _ ins | PNor _ ins => ins
   | PNot _ a | PBuf _ a | PZeroExtend _ a | PShl _ a _ | PShr _ a _ | PRange _ a _ _ | PBit _ a _ | PSignExtend _ a | PRepeat _ a => [a]
   | PAddCI _ a b ci => [a; b; ci]
@@ -77,6 +86,9 @@ Definition prim_assigns (p : prim) : list (rlval * rexpr) :=
   | PNor r ins => match ins with [] => [(whole r, RNum 0)] | _ => inl_nnary BOr r ins end
   | PEqual r a b => inl_equal r a b
   | PEqualConst r a v => inl_equalconst r a v
+  | PDiv r a b => inl_bin BDiv r a b
+  | PMod r a b => inl_bin BMod r a b
+  | PBitOf _ a bits k => [nth k (inl_bits a bits) (whole (nth k bits (O, 0)), RNum 0)]
   end.
 
 (* the value the simulator leaf passes to Wire.put, from the values read on prim_ins (same order) *)
@@ -110,6 +122,10 @@ Definition prim_fn (p : prim) (vs : list Z) : Z :=
   | PNor r ins => Nor_m (match ins with x :: _ => snd x | [] => 0 end) (snd r) vs
   | PEqual r a b => Equal_m (snd a) (snd b) (v 0%nat) (v 1%nat)
   | PEqualConst r a k => EqualConstant_m (snd a) (snd r) k (v 0%nat)
+  | PDiv r _ _ => Div_propagate (snd r) 0 (v 0%nat) (v 1%nat)                  (* rnd := 0 = a / 0 of VSem *)
+  | PMod r _ _ => if v 1%nat =? 0 then Wire_put (snd r) (v 0%nat)              (* a % 0 of VSem (Z.rem a 0 = a) *)
+                  else Mod_propagate (snd r) 0 (v 0%nat) (v 1%nat)
+  | PBitOf msb a bits k => nth k ((if msb then BitsMSBF_propagate else BitsLSBF_propagate) (snd a) (map snd bits) (v 0%nat)) 0
   end.
 
 (* the simulator leaf: wire ids are the flat net ids; one definite output *)
@@ -135,6 +151,7 @@ Definition prim_guard (p : prim) : bool :=
   | PNor _ ins => match ins with [] => false | x :: t => forallb (fun n => snd n <=? snd x) t end
   | PEqual r a b => (snd a =? snd b) && (snd r =? 1)
   | PEqualConst r a v => (snd r =? 1) && (0 <=? v) && (v <? 2 ^ snd a) && (v <? 2 ^ 31)
+  | PBitOf _ a bits k => (k <? length bits)%nat && (Z.of_nat (length bits) =? snd a) && (snd a <? 2 ^ 31)
   | _ => true
   end.
 Definition prim_wf (p : prim) : bool :=
@@ -175,6 +192,31 @@ Definition comb_design (St : Type) (f : flat) (ps : list prim) : design St :=
 Definition comp_design (f : flat) (ps : list prim) (gs : list reginst) : design Reg_state :=
   {| widths := map fn_width (f_nets f); combs := map prim_leaf ps; seqs := map reg_leaf gs;
      drivers := [{| d_enable := None; d_leaves := seq 0 (length gs) |}] |}.
+(* ---------------------------------------------------------------- multi-output leaves: the netlist as a list of ITEMS *)
+Inductive citem := IPrim (p : prim) | IBits (msb : bool) (a : nid) (bits : list nid).
+(* the single-output view the composition lemmas work on ... *)
+Definition item_prims (it : citem) : list prim :=
+  match it with IPrim p => [p] | IBits msb a bits => map (PBitOf msb a bits) (seq 0 (length bits)) end.
+(* ... and the simulator's leaf: a Bits block is ONE leaf writing all its listed wires (netlist.Dump's shape) *)
+Definition item_leaf (it : citem) : cleaf :=
+  match it with
+  | IPrim p => prim_leaf p
+  | IBits msb a bits =>
+      {| c_in := [fst a]; c_out := map fst bits;
+         c_f := fun vs => map Some ((if msb then BitsMSBF_propagate else BitsLSBF_propagate) (snd a) (map snd bits) (nth 0 vs 0)) |}
+  end.
+Definition item_ok (it : citem) : bool :=
+  match it with
+  | IPrim _ => true
+  | IBits _ a bits => negb (existsb (Nat.eqb (fst a)) (map fst bits)) && (Z.of_nat (length bits) =? snd a)
+  end.
+Definition comp_design_items (f : flat) (items : list citem) (gs : list reginst) : design Reg_state :=
+  {| widths := map fn_width (f_nets f); combs := map item_leaf items; seqs := map reg_leaf gs;
+     drivers := [{| d_enable := None; d_leaves := seq 0 (length gs) |}] |}.
+(* divisor nets (for the side condition "no zero divisor along the run") *)
+Definition div_nets (ps : list prim) : list nat :=
+  flat_map (fun p => match p with PDiv _ _ b | PMod _ _ b => [fst b] | _ => [] end) ps.
+
 (* power-up: Reg.__init__ stores reset_value in self.value and puts it on q *)
 Definition reg_st0 (gs : list reginst) : list Reg_state := map (fun g => {| Reg_s_value := rg_rv g |}) gs.
 Definition reg_pokes (gs : list reginst) : list (nat * Z) := map (fun g => (fst (rg_q g), rg_rv g)) gs.
@@ -240,6 +282,10 @@ Definition match_flat (ps : list prim) (gs : list reginst) (clk : nat) (ins : li
   forallb (fun g => forallb (fun n => negb (mem_nat (fst n) rqs)) (rg_q g :: reg_ins g)) gs &&
   forallb (fun i => negb (mem_nat i rqs) && negb (mem_nat i (map (fun p => fst (prim_out p)) all)) && (i <? length (f_nets f))%nat) ins &&
   init_ok f gs.
+
+(* the decidable per-design check on items *)
+Definition match_items (items : list citem) (gs : list reginst) (clk : nat) (ins : list nat) (f : flat) : bool :=
+  forallb item_ok items && match_flat (flat_map item_prims items) gs clk ins f.
 
 (* ---------------------------------------------------------------- environments the theorems quantify over *)
 (* one value per net, each inside its declared width *)
